@@ -20,6 +20,7 @@ from harness.core import Prop, cnat, clist
 TOL = 1e-12
 BIOT_UPDATE_KEY = "biot: discretize with update_discretization=True raises TypeError (dict-valued coupling matrices indexed by rows)"
 BIOT_CELLROW_KEY = "biot: update_discretization replaces cell rows computed on an incomplete stencil"
+MPSA_MIXED_KEY = "mpsa: Neumann faces on grids with mixed face types (bound_stress of the one-piece discretisation is wrong)"
 SHORTCUT_KEY = "split: a later subproblem covers all faces (shortcut replaces the accumulated sum)"
 
 
@@ -106,7 +107,7 @@ def csub(s):
             f"{clist(s['l2g_cells'], cnat)} {clist(s['l2g_faces'], cnat)})")
 
 
-def setup(disc, g, dseed, inverter, cell_scale=None):
+def setup(disc, g, dseed, inverter, cell_scale=None, alldir=False):
     """Parameter dictionary and discretisation object; all randomness from dseed."""
     import porepy as pp
 
@@ -134,6 +135,20 @@ def setup(disc, g, dseed, inverter, cell_scale=None):
         C = pp.FourthOrderTensor(mu, lam)
         lab = np.array(["dir" if rs.rand() < 0.5 else "neu" for _ in bf])
         lab[0] = "dir"
+        if alldir:
+            lab[:] = "dir"
+        if g.dim == 3:
+            # admissible 3-D assignment for the vector schemes: no two Neumann faces share a
+            # node (two Neumann faces sharing an edge make the local systems of Mpsa
+            # ill-posed; the discretisation, one-piece or not, is then not well defined)
+            fn = g.face_nodes.tocsc()
+            used = set()
+            for i, f in enumerate(bf):
+                nodes = set(int(x) for x in fn.indices[fn.indptr[f]:fn.indptr[f + 1]])
+                if lab[i] == "neu" and not (nodes & used):
+                    used |= nodes
+                else:
+                    lab[i] = "dir"
         bc = pp.BoundaryConditionVectorial(g, bf, lab)
         par = {"fourth_order_tensor": C, "bc": bc, "inverter": inverter}
         kw = "mechanics"
@@ -237,14 +252,16 @@ class C14(Prop):
         "external (its output is an input of the model). Column maps (cell_map, vector "
         "expansions nd) are abstracted: local matrices have global columns. Biot's cell-row "
         "matrices are compared after partial discretisation only on cells all of whose faces "
-        "are active. Open findings: Biot.discretize with update_discretization=True raises "
+        "are active. Open findings: Mpsa's Neumann columns are wrong on grids with mixed face "
+        "types (prisms), so 3-D prism cases of the vector schemes use Dirichlet conditions; "
+        "Biot.discretize with update_discretization=True raises "
         "TypeError; Biot.update_discretization (the method) returns wrong rows of the cell-row "
         "matrices for cells only some of whose faces are re-discretised (face-row matrices are "
         "exact; Mpfa and Mpsa are exact).")
     rule = ("2-D Cartesian (3x3..6x5) and structured triangle grids with perturbed interior "
             "nodes, few-cell Delaunay triangulations of random points (unbalanced partitions), structured "
             "tetrahedral grids and sheared extruded triangle grids (prisms: 3- and 4-node faces), thorough: also 3x3x2..4x3x3 Cartesian; random anisotropic tensors and mixed "
-            "boundary conditions; kinds: bookkeeping of subproblems(k=1..8) and of "
+            "boundary conditions (3-D vector schemes: node-disjoint Neumann faces only); kinds: bookkeeping of subproblems(k=1..8) and of "
             "cell_ind_for_partial_update (cells/faces/nodes, single and combined; directed: sheared "
             "prism grids with node sets holding exactly 3 of the 4 nodes of a quadrilateral face), split "
             "discretisation, partial discretisation, update after parameter change through discretize(update_discretization=True) "
@@ -304,6 +321,8 @@ class C14(Prop):
                        "grid": {"type": "prism", "n": nxyz, "shear": 0.45,
                                 "perturb": 0, "pseed": 0},
                        "dseed": rng.randrange(10**6), "disc": disc,
+                       # Mpsa with Neumann faces on mixed-face-type grids: open finding
+                       "alldir": disc != "mpfa",
                        "spec": {"quad3": [rng.random(), rng.random(),
                                           [rng.random() for _ in range(rng.randint(0, 3))]]}}
                 continue
@@ -400,19 +419,19 @@ class C14(Prop):
             return res
 
         disc = case["disc"]
-        d0, data0, kw = setup(disc, g, case["dseed"], "python")
+        d0, data0, kw = setup(disc, g, case["dseed"], "python", alldir=case.get("alldir", False))
         d0.discretize(g, data0)
         full = flat(data0[pp.DISCRETIZATION_MATRICES][kw])
 
         if kind == "inverter":
-            d1, data1, _ = setup(disc, g, case["dseed"], "numba")
+            d1, data1, _ = setup(disc, g, case["dseed"], "numba", alldir=case.get("alldir", False))
             d1.discretize(g, data1)
             other = flat(data1[pp.DISCRETIZATION_MATRICES][kw])
             res["diff"] = {k: maxdiff(other[k], full[k]) for k in full}
             return res
 
         if kind == "split":
-            d1, data1, _ = setup(disc, g, case["dseed"], "python")
+            d1, data1, _ = setup(disc, g, case["dseed"], "python", alldir=case.get("alldir", False))
             peak = (d1._estimate_peak_memory(g) if disc == "mpfa"
                     else d1._estimate_peak_memory_mpsa(g))
             if case["how"] == "num_subproblems":
@@ -454,7 +473,7 @@ class C14(Prop):
 
         sel = self._pick(g, case["spec"])
         if kind == "partial":
-            d1, data1, _ = setup(disc, g, case["dseed"], "python")
+            d1, data1, _ = setup(disc, g, case["dseed"], "python", alldir=case.get("alldir", False))
             for m, v in sel.items():
                 if v is not None:
                     data1[pp.PARAMETERS][kw]["specified_" + m] = np.array(v)
@@ -491,7 +510,7 @@ class C14(Prop):
         cells = np.array(sel["cells"])
         scale = np.ones(g.num_cells)
         scale[cells] = 3.0
-        dn, datan, _ = setup(disc, g, case["dseed"], "python", cell_scale=scale)
+        dn, datan, _ = setup(disc, g, case["dseed"], "python", cell_scale=scale, alldir=case.get("alldir", False))
         dn.discretize(g, datan)
         new_full = {k: v.copy() for k, v in flat(datan[pp.DISCRETIZATION_MATRICES][kw]).items()}
         datan[pp.DISCRETIZATION_MATRICES][kw] = data0[pp.DISCRETIZATION_MATRICES][kw]
@@ -574,6 +593,11 @@ class C14(Prop):
     def finding_key(self, case, res, why):
         if case["kind"] == "update" and case.get("disc") == "biot" and "err" in res:
             return BIOT_UPDATE_KEY
+        if (case["grid"]["type"] == "prism" and case.get("disc") in ("mpsa", "biot")
+                and not case.get("alldir") and "diff" in res):
+            bad = [k for k, v in res["diff"].items() if not (v <= TOL)]
+            if bad and all(k.startswith("bound") for k in bad):
+                return MPSA_MIXED_KEY
         if case["kind"] == "update_method" and case.get("disc") == "biot" and "diff" in res:
             bad = [k for k, v in res["diff"].items() if not (v <= TOL)]
             if bad and all(k.split("/")[0] in CELL_ROW for k in bad):
